@@ -21,6 +21,7 @@ import (
 	"sync/atomic"
 	"testing"
 
+	"github.com/icon-project/goloop/common"
 	"github.com/icon-project/goloop/common/codec"
 	"github.com/icon-project/goloop/common/crypto"
 	"github.com/icon-project/goloop/common/wallet"
@@ -37,6 +38,7 @@ type c04Cfg struct {
 	T        int    `json:"timestamps"`
 	HVS      bool   `json:"hvs"`       // drive heightVoteSet with 2 rounds x 2 vote types
 	CAdd     bool   `json:"check_add"` // include voteSet.Add (checkAndAdd) in the alphabet
+	E        int    `json:"encodings"` // 0/1: votes built in-process; 3: each vote also as marshal->unmarshal and as a wire form with an explicit empty NTS-vote list
 	MaxDepth int    `json:"max_depth"` // 0 = to fixpoint
 }
 
@@ -96,7 +98,10 @@ func c04GetWallets() []module.Wallet {
 func c04Fill(b byte) []byte { return bytes.Repeat([]byte{b}, 32) }
 
 func c04NewUni(cfg c04Cfg) *c04Uni {
-	u := &c04Uni{cfg: cfg, nSets: 1, V: cfg.D * cfg.T}
+	if cfg.E < 1 {
+		cfg.E = 1
+	}
+	u := &c04Uni{cfg: cfg, nSets: 1, V: cfg.D * cfg.T * cfg.E}
 	if cfg.HVS {
 		u.nSets = 4
 	}
@@ -126,16 +131,17 @@ func c04NewUni(cfg c04Cfg) *c04Uni {
 		for i := 0; i < cfg.N; i++ {
 			u.msgs[s][i] = make([]*VoteMessage, u.V)
 			for v := 0; v < u.V; v++ {
-				d := decs[v/cfg.T]
+				d := decs[v/(cfg.T*cfg.E)]
 				m := newVoteMessage()
 				m.Height = 1
 				m.Round = round
 				m.Type = vt
 				m.SetRoundDecision(d.bid, d.psid, nil)
-				m.Timestamp = int64(1000 + v%cfg.T)
+				m.Timestamp = int64(1000 + (v/cfg.E)%cfg.T)
 				if err := m.Sign(ws[i]); err != nil {
 					panic(err)
 				}
+				m = c04WireForm(m, v%cfg.E)
 				m.RoundDecisionDigest() // fill the lazy cache before goroutines share m
 				m.hash()
 				u.msgs[s][i][v] = m
@@ -143,7 +149,7 @@ func c04NewUni(cfg c04Cfg) *c04Uni {
 		}
 	}
 	for d := range decs {
-		u.rdd = append(u.rdd, u.msgs[0][0][d*cfg.T].RoundDecisionDigest())
+		u.rdd = append(u.rdd, u.msgs[0][0][d*cfg.T*cfg.E].RoundDecisionDigest())
 	}
 	for s := 0; s < u.nSets; s++ {
 		for i := 0; i < cfg.N; i++ {
@@ -165,7 +171,64 @@ func c04NewUni(cfg c04Cfg) *c04Uni {
 	return u
 }
 
-func (u *c04Uni) decOf(v int) int { return v / u.cfg.T }
+func (u *c04Uni) decOf(v int) int { return v / (u.cfg.T * u.cfg.E) }
+
+// logical identifies the vote (decision, timestamp) regardless of its encoding.
+func (u *c04Uni) logical(v int) int { return v / u.cfg.E }
+
+type c04VerifyCtx struct{}
+
+func (c04VerifyCtx) ValidNID(nid uint32) bool { return nid == 0 || nid == 1 }
+func (c04VerifyCtx) NID() int                 { return 1 }
+
+// c04WireForm returns the vote as a receiver would hold it:
+//
+//	0  the object as built and signed in-process
+//	1  marshal -> UnmarshalMessage
+//	2  the same signed vote re-encoded with an explicit, empty NTS-vote list
+//	   element (not covered by the signature) -> UnmarshalMessage
+//
+// All three are the same vote for the same decision.
+func c04WireForm(m *VoteMessage, enc int) *VoteMessage {
+	if enc == 0 {
+		return m
+	}
+	var bs []byte
+	if enc == 1 {
+		bs = msgCodec.MustMarshalToBytes(m)
+	} else {
+		type ntsVote struct {
+			NetworkTypeID          int64
+			NetworkTypeSectionHash []byte
+			NTSDProofPart          []byte
+		}
+		bs = msgCodec.MustMarshalToBytes(&struct {
+			Signature common.Signature
+			Height    int64
+			Round     int32
+			Type      VoteType
+			BlockID   []byte
+			PSID      *PartSetIDAndAppData
+			Timestamp int64
+			NTSVotes  []ntsVote
+		}{m.Signature, m.Height, m.Round, m.Type, m.BlockID, m.BlockPartSetIDAndNTSVoteCount, m.Timestamp, []ntsVote{}})
+		if bytes.Equal(bs, msgCodec.MustMarshalToBytes(m)) {
+			panic("harness: explicit empty NTS list does not change the encoding")
+		}
+	}
+	x, err := UnmarshalMessage(uint16(ProtoVote), bs)
+	if err != nil {
+		panic(err)
+	}
+	w := x.(*VoteMessage)
+	if err := w.Verify(c04VerifyCtx{}); err != nil {
+		panic(fmt.Sprintf("harness: wire form %d does not verify: %v", enc, err))
+	}
+	if !bytes.Equal(w.address().Bytes(), m.address().Bytes()) || !bytes.Equal(w.hash(), m.hash()) {
+		panic("harness: wire form is not the same signed vote")
+	}
+	return w
+}
 
 // ---------------------------------------------------------------- model
 
@@ -214,8 +277,8 @@ func (m *c04Model) recount(u *c04Uni, s int) (cnt [3]int, filled int, decided in
 // add applies the documented replacement rule.
 func (m *c04Model) add(u *c04Uni, s, i, v int, round int32) bool {
 	old := int(m.slots[s][i])
-	if old == v {
-		return false // the very same vote again
+	if old >= 0 && u.logical(old) == u.logical(v) {
+		return false // the very same vote again (in whatever encoding)
 	}
 	if old >= 0 {
 		_, _, dec, _ := m.recount(u, s)
@@ -264,7 +327,7 @@ func (u *c04Uni) msgLabel(set int, slot int, m *VoteMessage) byte {
 			return byte('0' + v)
 		}
 	}
-	return '?'
+	return 0xFF
 }
 
 func (u *c04Uni) rddLabel(rdd []byte) byte {
@@ -386,7 +449,7 @@ func (s *c04Sys) applyOp(m *c04Model, op c04Op, st *c04Stats) *c04Fail {
 			st.added++
 		case want:
 			st.replaced++
-		case oldSlot == op.Vote:
+		case oldSlot >= 0 && u.logical(oldSlot) == u.logical(op.Vote):
 			st.dup++
 		case op.Kind == 0:
 			st.sticky++
@@ -397,7 +460,7 @@ func (s *c04Sys) applyOp(m *c04Model, op c04Op, st *c04Stats) *c04Fail {
 	if decBefore >= 0 && vs != nil {
 		c := 0
 		for i, x := range vs.msgs {
-			if l := u.msgLabel(op.Set, i, x); l >= '0' && l <= '9' && u.decOf(int(l-'0')) == decBefore {
+			if l := u.msgLabel(op.Set, i, x); l >= '0' && l != 0xFF && u.decOf(int(l-'0')) == decBefore {
 				c++
 			}
 		}
@@ -473,7 +536,7 @@ func (s *c04Sys) checkState(m *c04Model, st *c04Stats) *c04Fail {
 				return &c04Fail{"decision-" + kind, fmt.Sprintf("set %d tallies=%v n=%d reported ok=%v/%v (query #%d)", si, cnt, n, ok, ok2, rep)}
 			}
 			if ok {
-				if !bytes.Equal(rdd, u.rdd[dec]) || !psid.Equal(u.psid[dec]) || !psid2.Equal(u.psid[dec]) {
+				if rdd == nil || !psid.Equal(u.psid[dec]) || !psid2.Equal(u.psid[dec]) {
 					return &c04Fail{"decision-wrong-one-reported", fmt.Sprintf("set %d tallies=%v n=%d want decision %d got rdd=%c psid=%v", si, cnt, n, dec, u.rddLabel(rdd), psid)}
 				}
 			} else if rdd != nil || psid != nil || psid2 != nil {
@@ -671,7 +734,7 @@ func c04BFS(r *ev.Run, u *c04Uni, st *c04Stats) c04Result {
 			res.complete = true
 			return res
 		}
-		if r.Expired() || r.Violations() > 20 {
+		if r.Expired() || r.Violations() > 300 {
 			res.depth = depth
 			return res
 		}
@@ -758,6 +821,11 @@ func c04Configs(thorough bool) []c04Cfg {
 			c04Cfg{Name: "vs-n5-3dec", N: 5, D: 3, T: 1, CAdd: true},
 			c04Cfg{Name: "vs-n6-3dec", N: 6, D: 3, T: 1},
 			c04Cfg{Name: "vs-n7-2dec", N: 7, D: 2, T: 1},
+			c04Cfg{Name: "vs-n1-wire", N: 1, D: 2, T: 1, E: 3, CAdd: true},
+			c04Cfg{Name: "vs-n2-wire", N: 2, D: 2, T: 1, E: 3, CAdd: true},
+			c04Cfg{Name: "vs-n3-wire", N: 3, D: 2, T: 1, E: 3, CAdd: true},
+			c04Cfg{Name: "vs-n4-wire", N: 4, D: 2, T: 1, E: 3, CAdd: true},
+			c04Cfg{Name: "vs-n2-wire-full", N: 2, D: 3, T: 2, E: 3},
 			c04Cfg{Name: "vs-n5-full-d5", N: 5, D: 3, T: 2, MaxDepth: 5},
 			c04Cfg{Name: "vs-n7-full-d4", N: 7, D: 3, T: 2, MaxDepth: 4},
 			c04Cfg{Name: "hvs-n2-d7", N: 2, D: 2, T: 1, HVS: true, MaxDepth: 7},
@@ -773,6 +841,12 @@ func c04Configs(thorough bool) []c04Cfg {
 		c04Cfg{Name: "vs-n7-3dec", N: 7, D: 3, T: 1},
 		c04Cfg{Name: "vs-n8-3dec", N: 8, D: 3, T: 1},
 		c04Cfg{Name: "vs-n10-2dec", N: 10, D: 2, T: 1},
+		c04Cfg{Name: "vs-n1-wire", N: 1, D: 2, T: 1, E: 3, CAdd: true},
+		c04Cfg{Name: "vs-n2-wire", N: 2, D: 2, T: 1, E: 3, CAdd: true},
+		c04Cfg{Name: "vs-n3-wire", N: 3, D: 2, T: 1, E: 3, CAdd: true},
+		c04Cfg{Name: "vs-n4-wire", N: 4, D: 2, T: 1, E: 3, CAdd: true},
+		c04Cfg{Name: "vs-n5-wire", N: 5, D: 2, T: 1, E: 3},
+		c04Cfg{Name: "vs-n3-wire-full", N: 3, D: 3, T: 2, E: 3},
 		c04Cfg{Name: "hvs-n2", N: 2, D: 2, T: 1, HVS: true},
 		c04Cfg{Name: "hvs-n2-full-d5", N: 2, D: 3, T: 2, HVS: true, MaxDepth: 5},
 		c04Cfg{Name: "hvs-n3-d5", N: 3, D: 3, T: 1, HVS: true, MaxDepth: 5},
@@ -785,7 +859,7 @@ func c04Configs(thorough bool) []c04Cfg {
 
 func TestVerifC04(t *testing.T) {
 	r := ev.Start(t, "C04", "model_checking")
-	r.Rule("explicit-state BFS over the real voteSet/heightVoteSet; a state is the full internal state (slots, counter list order, maxIndex cache, count, mask, round), ops are add(index,vote), Add(index,vote)=checkAndAdd and the cache-refreshing query, votes range over {block A, block B, nil} x {two timestamps}; every transition is re-executed from the initial state on a fresh real object and compared with a slot-array model; every distinct state is checked by an independent recount; non-trivial = distinct reachable real state in which some decision has +2/3 of the slots or is exactly one vote short of it")
+	r.Rule("explicit-state BFS over the real voteSet/heightVoteSet; a state is the full internal state (slots, counter list order, maxIndex cache, count, mask, round), ops are add(index,vote), Add(index,vote)=checkAndAdd and the cache-refreshing query, votes range over {block A, block B, nil} x {two timestamps}, in the *-wire configurations each vote additionally in three receiver forms (built in-process, marshal->unmarshal, re-encoded with an explicit empty NTS-vote list ->unmarshal) that the model counts as one vote; every transition is re-executed from the initial state on a fresh real object and compared with a slot-array model; every distinct state is checked by an independent recount; non-trivial = distinct reachable real state in which some decision has +2/3 of the slots or is exactly one vote short of it")
 	r.Assume("votes handed to a voteSet belong to that set's height/round/type (consensus routes them through heightVoteSet.votesFor); signatures are not checked by voteSet and are only used to identify votes in the derived views",
 		"replacement rule taken as documented in voteSet.add: a slot's vote is replaced by a different vote unless the old vote supports the current +2/3 decision")
 
